@@ -58,9 +58,10 @@ def main():
                        "at the transport / os / socket seams from the harness "
                        "side; BREEZY_VERIF=1 is exported by every check for "
                        "future hooks"),
-            "baseline_off_cmd": ("cd /repo && /venv/bin/python -m pytest -ra -q "
-                                 "-p no:cacheprovider --timeout=900 "
-                                 "--continue-on-collection-errors"),
+            "baseline_off_cmd": ("cd /repo && env -u BREEZY_VERIF /venv/bin/python "
+                                 "-m pytest -ra -q -p no:cacheprovider "
+                                 "--timeout=900 --continue-on-collection-errors "
+                                 "--junitxml=<file>"),
             "source_commits": [],
             "add_only": True,
         },
